@@ -185,10 +185,11 @@ def run(ctx):
     from ..sym import subst_fold, truth
     n_bound = 0
     for v in (0, 1, -1, 2 ** 31 - 1, 2 ** 31, -2 ** 31, -2 ** 31 - 1,
-              2 ** 32 - 1, -2 ** 32 + 1, 2 ** 32, 2 ** 62):
+              2 ** 32 - 1, -2 ** 32 + 1, 2 ** 32, 2 ** 62,
+              2 ** 63 - 1, -2 ** 63 + 1, -2 ** 63):
         got = set()
         for p in int_paths if False else [
-                q for q in paths if q.outcome == 'return' and any(
+                q for q in paths if q.outcome in ('return', 'raise') and any(
                     kind(c) == 'call' and c[1] == 'isinstance' and pol and
                     c[3][1] == ('builtin', 'int') for c, pol in q.cond)]:
             feas = True
@@ -210,11 +211,23 @@ def run(ctx):
                     break
             if feas is None:
                 got.add('?')
+            elif feas and p.outcome == 'raise':
+                got.add('<raises>')
             elif feas and is_const(p.value):
                 got.add(p.value[1])
         if '?' in got or not got:
             continue
         n_bound += 1
+        # every value INT64 can hold has a signature (the round trip of an
+        # int inside a variant starts here)
+        ctx.ob('C19.D2', fi0.qualname, 'int64-range-has-a-signature:%d' % v,
+               '<raises>' not in got,
+               'the int %d, which INT64 holds, is refused by the inference '
+               '(%s): it cannot be sent as a variant or inside a container '
+               'any more' % (v, sorted(got)))
+        got.discard('<raises>')
+        if not got:
+            continue
         fits = -2 ** 31 <= v < 2 ** 31
         ok = (got == {'i'}) if fits else ('i' not in got)
         ctx.ob('C19.D2', fi0.qualname, 'int32-exactly-when-it-fits:%d' % v,
